@@ -109,6 +109,23 @@ theorem finishKind_env (k : Kind) (out : Shell) (st : Nat) (intr : Option Nat) :
 theorem parentSide_sync (k : Kind) (env : Env) (hk : k ≠ .async) : parentSide k env [] = { env := env } := by
   cases k <;> first | exact absurd rfl hk | rfl
 
+theorem getTty_jobs (env : Env) : (getTty env).jobs = env.jobs := by
+  unfold getTty
+  split <;> rfl
+
+theorem monitorChanged_jobs (o : String) (env : Env) : (monitorChanged o env).jobs = env.jobs := by
+  unfold monitorChanged
+  split
+  · rfl
+  · simp only []
+    split
+    · rw [getTty_jobs]
+    · rfl
+
+theorem parentSide_sync' (k : Kind) (env : Env) (during : List Op) (hk : k ≠ .async) :
+    parentSide k env during = { env := env } := by
+  cases k <;> first | exact absurd rfl hk | rfl
+
 theorem interruptedBy_eq_none (k : Kind) (jc : Bool) (env : Env) (status : Nat)
     (h : env.stack.contains "Subshell" = true ∨ env.options.contains "interactive" = false
       ∨ sigintDefault env = false ∨ status ≠ 384 + SIGINT) :
